@@ -17,7 +17,7 @@ from datetime import datetime
 import xmltodict
 from dateutil.parser import parse
 
-from .utils.xml import remove_node, replace_node, insert_node, find_child, append_node
+from .utils.xml import remove_node, replace_node, insert_node, find_child, append_node, move_nodes
 from .utils import s3
 from .moselements import Story, Item
 from .exc import (
@@ -949,7 +949,7 @@ class ItemMoveMultiple(MosFile):
             )
 
         if self.item is None:
-            target_item_index = len(story)
+            target_item = None
         else:
             target_item, target_item_index = find_child(parent=story, child_tag='item', id=self.item.id)
             if target_item is None:
@@ -957,15 +957,20 @@ class ItemMoveMultiple(MosFile):
                     f"{self.__class__.__name__} error in {self.message_id} - target item not found"
                 )
 
-        for i, item in enumerate(self.items, start=target_item_index):
+        # resolve every item before changing anything
+        source_items = []
+        for item in self.items:
             source_item, source_item_index = find_child(parent=story, child_tag='item', id=item.id)
-            if source_item_index is None:
+            if source_item is None:
                 raise MosMergeError(
                     f"{self.__class__.__name__} error in {self.message_id} - source item not found"
                 )
-            remove_node(parent=story, node=source_item)
-            insert_node(parent=story, node=source_item, index=i)
-
+            if source_item is target_item or source_item in source_items:
+                raise MosMergeError(
+                    f"{self.__class__.__name__} error in {self.message_id} - duplicate item IDs"
+                )
+            source_items.append(source_item)
+        move_nodes(parent=story, nodes=source_items, target=target_item)
         return ro
 
     def inspect(self):
@@ -1880,8 +1885,9 @@ class EAStoryMove(ElementAction):
         """
         Merge into the :class:`RunningOrder` object provided.
         """
-        if self.story is None:
-            target_story_index = len(ro.base_tag)
+        if self.story is None or self.story.id is None:
+            # no (or a blank) target: move to the bottom
+            target_story = None
         else:
             target_story, target_story_index = find_child(parent=ro.base_tag, child_tag='story', id=self.story.id)
             if target_story is None:
@@ -1889,14 +1895,20 @@ class EAStoryMove(ElementAction):
                     f"{self.__class__.__name__} error in {self.message_id} - target story not found"
                 )
 
+        # resolve every story before changing anything
+        source_stories = []
         for source_story in self.stories:
             story, source_index = find_child(parent=ro.base_tag, child_tag='story', id=source_story.id)
             if story is None:
                 raise MosMergeError(
                     f"{self.__class__.__name__} error in {self.message_id} - source story not found"
                 )
-            remove_node(parent=ro.base_tag, node=story)
-            insert_node(parent=ro.base_tag, node=story, index=target_story_index)
+            if story is target_story or story in source_stories:
+                raise MosMergeError(
+                    f"{self.__class__.__name__} error in {self.message_id} - duplicate story IDs"
+                )
+            source_stories.append(story)
+        move_nodes(parent=ro.base_tag, nodes=source_stories, target=target_story)
         return ro
 
     def inspect(self):
@@ -1966,14 +1978,20 @@ class EAItemMove(ElementAction):
             raise MosMergeError(
                 f"{self.__class__.__name__} error in {self.message_id} - target item not found"
             )
-        for i, source_item in enumerate(self.items, start=target_item_index):
+        # resolve every item before changing anything
+        items = []
+        for source_item in self.items:
             item, item_index = find_child(parent=story, child_tag='item', id=source_item.id)
             if item is None:
                 raise MosMergeError(
                     f"{self.__class__.__name__} error in {self.message_id} - source item not found"
                 )
-            remove_node(parent=story, node=item)
-            insert_node(parent=story, node=item, index=i)
+            if item is target_item or item in items:
+                raise MosMergeError(
+                    f"{self.__class__.__name__} error in {self.message_id} - duplicate item IDs"
+                )
+            items.append(item)
+        move_nodes(parent=story, nodes=items, target=target_item)
         return ro
 
     def inspect(self):
